@@ -620,7 +620,7 @@ End Corr.
 (* ------------------------------------------------------------------------------------------ *)
 (* witnesses: where the full statements fail, and that the premises are inhabited *)
 Definition lib_w : lib :=
-  {| uuid_ok := fun _ => true; int_ok := fun _ => true; re_ok := fun _ => true; cidr_ok := fun _ => true;
+  {| uuid_ok := fun _ => true; uuid_key := fun _ => 0; int_ok := fun _ => true; re_ok := fun _ => true; cidr_ok := fun _ => true;
      ext_refs := fun _ => Some [[114; 49]; [114; 50]] |}.        (* "r1", "r2" *)
 Definition k (s : str) := YStr s.
 (* title: t / correlation: {type: value_count, rules: r, timespan: 5m, condition: {gte: 1}} *)
